@@ -377,3 +377,47 @@ Theorem step_touches_only_its_kind : forall vr s k k' m,
   get k' (fst (step vr s (Traffic k m))) = get k' s /\
   get k' (fst (step vr s (ResetK k))) = get k' s.
 Proof. intros vr s k k' m H. simpl. split; apply get_set_other; exact H. Qed.
+
+(* ------------------------------------------------------------------ *)
+(* Load: exactly as many errors as failing messages                     *)
+(* ------------------------------------------------------------------ *)
+
+Lemma spec_run_traffic_req : forall ms tq0 ts0 aq as_,
+  spec_run tq0 ts0 aq as_ (map (Traffic Req) ms ++ [Query]) =
+  [expected Req (aq ++ ms) tq0 ++ expected Res as_ ts0].
+Proof.
+  induction ms as [|m ms IH]; intros; simpl.
+  - rewrite app_nil_r. reflexivity.
+  - rewrite IH, <- app_assoc. reflexivity.
+Qed.
+
+Lemma spec_run_traffic_res : forall ms tq0 ts0 aq as_,
+  spec_run tq0 ts0 aq as_ (map (Traffic Res) ms ++ [Query]) =
+  [expected Req aq tq0 ++ expected Res (as_ ++ ms) ts0].
+Proof.
+  induction ms as [|m ms IH]; intros; simpl.
+  - rewrite app_nil_r. reflexivity.
+  - rewrite IH, <- app_assoc. reflexivity.
+Qed.
+
+(* the load answer is the specified answer of the history "n times m, then query" *)
+Theorem load_answer_is_spec : forall c k m n,
+  spec_outputs c (map (Traffic k) (repeat m n) ++ [Query]) = [load_answer c k m n].
+Proof.
+  intros c [] m n; unfold spec_outputs, load_answer, expected_both.
+  - rewrite spec_run_traffic_req. reflexivity.
+  - rewrite spec_run_traffic_res. reflexivity.
+Qed.
+
+Theorem c13_load_ok_iff : forall c k m n cnt,
+  c13_load_ok c k m n cnt = true <-> cnt = length (load_answer c k m n).
+Proof. intros. unfold c13_load_ok. apply Nat.eqb_eq. Qed.
+
+(* whatever the order in which the goroutines' messages went through: the
+   history is n copies of the same label, so every schedule is this history *)
+Theorem load_impl_accepted : forall c k m n,
+  c13_load_ok c k m n
+    (length (hd [] (model_outputs repaired c (map (Traffic k) (repeat m n) ++ [Query])))) = true.
+Proof.
+  intros. apply c13_load_ok_iff. rewrite query_exact, load_answer_is_spec. reflexivity.
+Qed.
